@@ -162,6 +162,10 @@ func c03Case(c *Ctx, tr interface{}, tag string) {
 	}
 	c.Emit(in, shown, true)
 	c.Tag(tag)
+	// the same value through the deep gob model (encoder and decoder on wire trees), and whether it lies in
+	// the domain of the whole-tree theorem: no nil-like items, no empty lists, texts, strings or sub-records
+	c.Emit(map[string]interface{}{"op": "deepGobRoundTrip", "v": tr}, shown, false)
+	c.Emit(map[string]interface{}{"op": "deepGobWF", "v": tr}, gobWellFormed(tr), false)
 	if viol != "" {
 		cls := "C03/roundtrip"
 		if strings.HasPrefix(viol, "panic") {
@@ -210,4 +214,65 @@ func init() {
 		_, viol := gobRoundTrip(parseTree(in["v"]))
 		return viol
 	}
+}
+
+// gobWellFormed: the readable meaning of the model's wfItem for generated values
+func gobWellFormed(x interface{}) bool {
+	switch v := x.(type) {
+	case nil:
+		return false
+	case T:
+		if v["nil"] == true {
+			return false
+		}
+		if s, ok := v["iri"]; ok {
+			return s != ""
+		}
+		if l, ok := v["iris"]; ok {
+			return len(asList(l)) > 0
+		}
+		for _, k := range []string{"items", "list"} {
+			if l, ok := v[k]; ok {
+				if len(asList(l)) == 0 {
+					return false
+				}
+				for _, e := range asList(l) {
+					if !gobWellFormed(e) {
+						return false
+					}
+				}
+				return true
+			}
+		}
+		if l, ok := v["nlv"]; ok {
+			return len(asList(l)) > 0
+		}
+		if r, ok := v["rec"].(T); ok {
+			if len(r) == 0 {
+				return false
+			}
+			for _, e := range r {
+				if !gobWellFormed(e) {
+					return false
+				}
+			}
+			return true
+		}
+		if s, ok := v["s"]; ok {
+			return s != ""
+		}
+		if f, ok := v["f"].(T); ok {
+			if len(f) == 0 {
+				return false
+			}
+			for _, e := range f {
+				if !gobWellFormed(e) {
+					return false
+				}
+			}
+			return true
+		}
+		return true // scalars: set by construction
+	}
+	return true
 }
